@@ -73,7 +73,7 @@ def gen_net(rng, idx, profile):
     x = b.input([1, h, w, c])
     b.net.desc.append(f"profile={profile} dtype={dtype} in={[1, h, w, c]}")
     menu = {
-        "conv": ["conv", "conv", "conv1x1", "dwconv", "maxpool", "avgpool_valid", "relu", "fc_end"],
+        "conv": ["conv", "conv", "conv1x1", "dwconv", "maxpool", "avgpool_valid", "relu", "fc_end", "tconv"],
         "elementwise": ["add_self", "add_skip", "mul_const", "sub_const", "add_const", "minmax", "relu", "lrelu", "quantize",
                         "conv1x1", "mul_skip"],
         "memory": ["concat", "split_concat", "slice", "pad_conv", "reshape_back", "conv1x1", "relu", "maxpool", "pad"],
@@ -165,6 +165,8 @@ def gen_net(rng, idx, profile):
         elif kind == "reshape_back":
             r1 = b.reshape(cur, [1, hh * ww, 1, cc])
             new = b.reshape(r1, [1, hh, ww, cc])
+        elif kind == "tconv" and hh * ww <= 36 and xt.dtype != "int16":
+            new = b.transpose_conv(cur, rng.choice([1, 4, 8]), rng.choice([(2, 2), (3, 3)]), (2, 2), rng.choice(["SAME", "VALID"]))
         elif kind == "fc_end" and hh * ww * cc <= 512:
             flat = b.reshape(cur, [1, hh * ww * cc])
             new = b.fc(flat, rng.choice([1, 10, 16]), act=rng.choice([0, 1]))
@@ -184,11 +186,20 @@ def gen_net(rng, idx, profile):
             avoid |= {"fc_end", "reshape_back"}
     if profile == "approx" and len(b.t(cur).shape) == 4:
         # the approximated operator comes last so that its error is not amplified
-        which = rng.choice(["avgpool_same", "avgpool_same", "logistic", "tanh"])
+        which = rng.choice(["avgpool_same", "avgpool_same", "logistic", "tanh", "resize", "resize"])
+        hh, ww, cc = b.t(cur).shape[1:]
+        if which == "resize" and (hh * ww > 36 or b.t(cur).dtype == "int16"):
+            which = "avgpool_same"
         b.net.desc.append(which)
         if which == "avgpool_same":
             k = rng.choice([(2, 2), (3, 3), (3, 3), (5, 5)])
             new = b.pool(cur, "AVERAGE_POOL_2D", k, rng.choice([(1, 1), (2, 2)]), "SAME")
+        elif which == "resize":
+            kind_r = rng.choice(["RESIZE_BILINEAR", "RESIZE_NEAREST_NEIGHBOR"])
+            al, hp = rng.choice([(False, False), (True, False), (False, True)])
+            if al and (hh == 1 or ww == 1 or (kind_r == "RESIZE_NEAREST_NEIGHBOR" and cc > 1)):
+                al = False          # crashes recorded under C13
+            new = b.resize(cur, 2, kind_r, al, hp)
         else:
             new = b.unary("LOGISTIC" if which == "logistic" else "TANH", cur)
         if new is not None:
@@ -418,7 +429,7 @@ def main():
     import pipeline
 
     pipeline.load_vela()
-    n = 1200 if ck.thorough else 140
+    n = 6000 if ck.thorough else 600
     k_inputs = 5 if ck.thorough else 4
     jobs = [(0, 0, "known_" + nm, k_inputs) for nm in ("slice_relu", "fused_act_relu", "pad_conv_reshape", "quantize_relu", "reshape_relu",
                                                               "slice_window", "lut_reshape", "cascade_stale_row")]
